@@ -778,7 +778,8 @@ class _Dtypes:
         if d.kind == 'f':
             return d, NANV
         if d.kind in 'Mm':
-            return d, core.Opaque('NaT') if hasattr(core, 'Opaque') else None
+            from .stdlib import OpaqueValue
+            return d, OpaqueValue('NaT')
         if d.kind == 'O':
             return d, NANV
         if d.kind == 'i':
